@@ -68,7 +68,12 @@ def _add_before(before, x, y, universe):
 
 def _base_order(s):
     # deterministic base order so that a decision prefix replays identically in every process
-    return sorted(set.__iter__(s), key=_key)
+    out = sorted(set.__iter__(s), key=_key)
+    if SWITCH.symbolic and core._CUR[0] is not None:
+        for a, b in zip(out, out[1:]):
+            if _key(a) == _key(b):
+                raise core.Inconclusive("OSet elements %r and %r have no deterministic base order (set __symx_order__)" % (a, b))
+    return out
 
 
 def _key(x):
